@@ -21,6 +21,8 @@ type txnGen struct {
 	pWait    float64
 	dangling float64 // chance that a reference points to a non-existent row
 	swaps    float64 // chance that a transaction swaps / hands over indexed values
+	custom   func(tg *txnGen) []TOp // property-specific transaction generator
+	pCustom  float64
 }
 
 func (tg *txnGen) uuidsOf(table string) []string {
@@ -124,6 +126,17 @@ func (tg *txnGen) where(t *dyn.Table) []Cond {
 // txn generates one transaction of 1..maxOps operations.
 func (tg *txnGen) txn(maxOps int) []TOp {
 	g := tg.g
+	if tg.custom != nil {
+		pc := tg.pCustom
+		if pc == 0 {
+			pc = 0.85
+		}
+		if g.Chance(pc) {
+			if ops := tg.custom(tg); len(ops) > 0 {
+				return ops
+			}
+		}
+	}
 	n := 1 + g.Intn(maxOps)
 	pending := map[string][]string{}
 	var ops []TOp
@@ -164,7 +177,24 @@ func (tg *txnGen) txn(maxOps int) []TOp {
 					}
 					row[c.Name] = tg.value(c, pending)
 				}
-				op = TOp{Kind: "update", Table: t.Name, Where: tg.where(t), Row: row}
+				wh := tg.where(t)
+				// name some columns with the value a selected row already has (no change for that row)
+				if us := tg.uuidsOf(t.Name); len(us) > 0 && g.Chance(0.5) {
+					var sel []string
+					for _, u := range us {
+						if rfcMatch(u, tg.state[t.Name][u], wh) {
+							sel = append(sel, u)
+						}
+					}
+					if len(sel) > 0 {
+						cur := tg.state[t.Name][sel[g.Intn(len(sel))]]
+						for j := 0; j < 1+g.Intn(2); j++ {
+							c := t.Cols[g.Intn(len(t.Cols))]
+							row[c.Name] = cur[c.Name]
+						}
+					}
+				}
+				op = TOp{Kind: "update", Table: t.Name, Where: wh, Row: row}
 			case y < 8:
 				var ms []Mut
 				k := 1 + g.Intn(2)
@@ -224,6 +254,17 @@ func (tg *txnGen) swap() []TOp {
 		if g.Chance(0.5) {
 			return []TOp{{Kind: "update", Table: t.Name, Where: byU(a), Row: ra}, {Kind: "update", Table: t.Name, Where: byU(b), Row: rb}}
 		}
+		if len(t.Indexes) >= 2 && g.Chance(0.4) {
+			// delete a; insert a row taking a's value on one index and b's value on another
+			nr := map[string]val.Val{}
+			for _, c := range t.Indexes[0] {
+				nr[c] = tg.state[t.Name][a][c]
+			}
+			for _, c := range t.Indexes[1] {
+				nr[c] = tg.state[t.Name][b][c]
+			}
+			return []TOp{{Kind: "delete", Table: t.Name, Where: byU(a)}, {Kind: "insert", Table: t.Name, UUID: tg.fresh(), Row: nr}}
+		}
 		full := map[string]val.Val{}
 		for c, v := range tg.state[t.Name][a] {
 			if tc := t.Col(c); tc != nil && tc.RefTable == "" && tc.VRefTable == "" {
@@ -278,7 +319,15 @@ func (tg *txnGen) spoil(ops []TOp) []TOp {
 	g := tg.g
 	i := g.Intn(len(ops))
 	t := tg.sc.Table(ops[i].Table)
-	switch g.Intn(6) {
+	switch g.Intn(7) {
+	case 6: // delete a row and insert a row with the same uuid again (the update sequence cannot be merged)
+		if us := tg.uuidsOf(t.Name); len(us) > 0 {
+			u := us[g.Intn(len(us))]
+			del := TOp{Kind: "delete", Table: t.Name, Where: []Cond{{Col: "_uuid", Fn: "==", Arg: val.VA(val.Uuid(u))}}}
+			ins := TOp{Kind: "insert", Table: t.Name, UUID: u, Row: map[string]val.Val{}}
+			rest := append([]TOp{}, ops[i:]...)
+			ops = append(append(ops[:i:i], del, ins), rest...)
+		}
 	case 0: // unsupported operation
 		ops[i] = TOp{Kind: "other", OpName: []string{"commit", "abort", "comment", "assert"}[g.Intn(4)]}
 	case 1: // ill-typed value
